@@ -1133,22 +1133,22 @@ pub fn probe_messages() -> i32 {
         let top = rk(1, vec![rk(2, vec![rk(5, vec![]), rk(6, vec![]), rk(7, vec![])]), rk(3, vec![]), rk(4, vec![])]);
         match CoseRecipient::from_cbor_value(top.clone()) {
             Ok(x) => { if kids(&x) != vec![2, 3, 4] || kids(&x.recipients[0]) != vec![5, 6, 7] { if report("C09", format!("COSE_recipient {}: nested recipients come back as {:?} / {:?}, wire order is [2,3,4] / [5,6,7]", hex(&ser(&top)), kids(&x), x.recipients.first().map(kids))) { return 1; } }
-                       if x.clone().to_cbor_value().ok() != Some(top.clone()) { if report("C09,C07", format!("COSE_recipient {}: does not encode back to the same structure", hex(&ser(&top)))) { return 1; } } }
+                       if x.clone().to_cbor_value().ok() != Some(top.clone()) { if report("C09,C07,C11", format!("COSE_recipient {}: does not encode back to the same structure (nested recipients in wire order)", hex(&ser(&top)))) { return 1; } } }
             Err(e) => { if report("C09", format!("COSE_recipient {} rejected: {:?}", hex(&ser(&top)), e)) { return 1; } }
         }
         let enc = Value::Array(vec![Value::Bytes(vec![]), Value::Map(vec![]), Value::Null, Value::Array(vec![rk(2, vec![]), rk(3, vec![rk(8, vec![]), rk(9, vec![])]), rk(4, vec![])])]);
         match CoseEncrypt::from_cbor_value(enc.clone()) {
-            Ok(x) => { let got: Vec<u8> = x.recipients.iter().map(|c| c.unprotected.key_id[0]).collect(); if got != vec![2, 3, 4] || kids(&x.recipients[1]) != vec![8, 9] { if report("C09", format!("COSE_Encrypt {}: recipients come back as {:?}, wire order is [2,3,4]", hex(&ser(&enc)), got)) { return 1; } } }
+            Ok(x) => { if x.clone().to_cbor_value().ok() != Some(enc.clone()) { if report("C11,C07", format!("CoseEncrypt {}: does not encode back to the same structure (nested list in wire order)", hex(&ser(&enc)))) { return 1; } } let got: Vec<u8> = x.recipients.iter().map(|c| c.unprotected.key_id[0]).collect(); if got != vec![2, 3, 4] || kids(&x.recipients[1]) != vec![8, 9] { if report("C09", format!("COSE_Encrypt {}: recipients come back as {:?}, wire order is [2,3,4]", hex(&ser(&enc)), got)) { return 1; } } }
             Err(e) => { if report("C09", format!("COSE_Encrypt {} rejected: {:?}", hex(&ser(&enc)), e)) { return 1; } }
         }
         let mac = Value::Array(vec![Value::Bytes(vec![]), Value::Map(vec![]), Value::Null, Value::Bytes(vec![1]), Value::Array(vec![rk(2, vec![]), rk(3, vec![]), rk(4, vec![])])]);
         match CoseMac::from_cbor_value(mac.clone()) {
-            Ok(x) => { let got: Vec<u8> = x.recipients.iter().map(|c| c.unprotected.key_id[0]).collect(); if got != vec![2, 3, 4] { if report("C09", format!("COSE_Mac {}: recipients come back as {:?}, wire order is [2,3,4]", hex(&ser(&mac)), got)) { return 1; } } }
+            Ok(x) => { if x.clone().to_cbor_value().ok() != Some(mac.clone()) { if report("C11,C07", format!("CoseMac {}: does not encode back to the same structure (nested list in wire order)", hex(&ser(&mac)))) { return 1; } } let got: Vec<u8> = x.recipients.iter().map(|c| c.unprotected.key_id[0]).collect(); if got != vec![2, 3, 4] { if report("C09", format!("COSE_Mac {}: recipients come back as {:?}, wire order is [2,3,4]", hex(&ser(&mac)), got)) { return 1; } } }
             Err(e) => { if report("C09", format!("COSE_Mac {} rejected: {:?}", hex(&ser(&mac)), e)) { return 1; } }
         }
         let sgn = Value::Array(vec![Value::Bytes(vec![]), Value::Map(vec![]), Value::Null, Value::Array(vec![sk(2), sk(3), sk(4)])]);
         match CoseSign::from_cbor_value(sgn.clone()) {
-            Ok(x) => { let got: Vec<u8> = x.signatures.iter().map(|c| c.signature[0]).collect(); if got != vec![2, 3, 4] { if report("C09", format!("COSE_Sign {}: signatures come back as {:?}, wire order is [2,3,4]", hex(&ser(&sgn)), got)) { return 1; } } }
+            Ok(x) => { if x.clone().to_cbor_value().ok() != Some(sgn.clone()) { if report("C11,C07", format!("CoseSign {}: does not encode back to the same structure (nested list in wire order)", hex(&ser(&sgn)))) { return 1; } } let got: Vec<u8> = x.signatures.iter().map(|c| c.signature[0]).collect(); if got != vec![2, 3, 4] { if report("C09", format!("COSE_Sign {}: signatures come back as {:?}, wire order is [2,3,4]", hex(&ser(&sgn)), got)) { return 1; } } }
             Err(e) => { if report("C09", format!("COSE_Sign {} rejected: {:?}", hex(&ser(&sgn)), e)) { return 1; } }
         }
     }
